@@ -223,7 +223,7 @@ func (a *agg) add(o *Outcome) {
 
 // runWorker runs one worker process over indices from, from+stride, ... and
 // restarts it when it recycles itself; returns when the deadline passes.
-func runWorker(bin, prop, tier string, seed uint64, from, stride int64, deadline time.Time, a *agg, maxRuns int64, race bool) error {
+func runWorker(bin, prop, tier string, seed uint64, from, stride int64, deadline time.Time, a *agg, maxRuns int64, race bool, procs int) error {
 	next := from
 	done := int64(0)
 	for time.Now().Before(deadline) && (maxRuns == 0 || done < maxRuns) {
@@ -233,7 +233,7 @@ func runWorker(bin, prop, tier string, seed uint64, from, stride int64, deadline
 			count = maxRuns - done
 		}
 		args := []string{"-prop", prop, "-tier", tier, "-seed", fmt.Sprint(seed), "-from", fmt.Sprint(next), "-stride", fmt.Sprint(stride),
-			"-count", fmt.Sprint(count), "-budget", left.String()}
+			"-count", fmt.Sprint(count), "-budget", left.String(), "-procs", fmt.Sprint(procs)}
 		cmd := exec.Command(bin, args...)
 		cmd.Env = append(os.Environ(), "GOMAXPROCS=2", "GORACE=halt_on_error=1 exitcode=66")
 		var stderr bytes.Buffer
@@ -530,7 +530,7 @@ func main() {
 		wg.Add(1)
 		go func(w int) {
 			defer wg.Done()
-			if err := runWorker(bin, prop, tier, seed, int64(w), int64(tc.workers), deadline, a, 0, tc.race); err != nil {
+			if err := runWorker(bin, prop, tier, seed, int64(w), int64(tc.workers), deadline, a, 0, tc.race, 2); err != nil {
 				errs <- err
 			}
 		}(w)
@@ -553,7 +553,7 @@ func main() {
 	{
 		b := newAgg()
 		n := int64(40)
-		if err := runWorker(bin, prop, tier, seed, 0, 1, time.Now().Add(60*time.Second), b, n, tc.race); err != nil {
+		if err := runWorker(bin, prop, tier, seed, 0, 1, time.Now().Add(60*time.Second), b, n, tc.race, 1+int(seed%2)*15); err != nil {
 			cleanup()
 			infra("determinism re-run: %v", err)
 		}
